@@ -27,19 +27,24 @@ struct Case {
 /// (ref name, value) — value is an object key of the fixture or `ref: <target>`
 const REFS: [(&str, &str); 11] = [
     ("refs/heads/a", "c1"),
-    ("refs/heads/b/c", "c2"),
-    ("refs/tags/lw", "c1"),
     ("refs/tags/ann", "tag_ann"),
     ("refs/tags/nest", "tag_nest"),
     ("refs/heads/sym", "ref: refs/heads/a"),
-    ("refs/remotes/o/x", "c2"),
     // thorough only
+    ("refs/heads/b/c", "c2"),
+    ("refs/tags/lw", "c1"),
+    ("refs/remotes/o/x", "c2"),
+    // thorough only, sub-check `exotic`
     ("refs/heads/symtag", "ref: refs/tags/ann"),
     ("refs/heads/sym2", "ref: refs/heads/sym"),
     ("refs/tags/tree", "tag_tree"),
     ("refs/tags/blob", "blob"),
 ];
-const QUICK_REFS: usize = 7;
+const QUICK_REFS: usize = 4;
+const MAIN_REFS: usize = 7;
+/// (protocol.version, filter)
+const COMBOS: [(u8, u8); 7] = [(0, 0), (1, 1), (2, 0), (2, 1), (2, 2), (0, 1), (1, 0)];
+const QUICK_COMBOS: usize = 5;
 const HEADS: [&str; 6] = ["ref: refs/heads/a", "c1", "ref: refs/heads/unborn", "ref: refs/heads/sym", "ref: refs/tags/ann", "tag_ann"];
 
 /// shared object store + the ids in it
@@ -87,6 +92,8 @@ fn fixture() -> Fixture {
     }
 }
 
+struct ServerDir(PathBuf);
+
 fn build_server(fx: &Fixture, c: &Case, dir: &Path) {
     util::bare_skeleton(dir, &fx.value(&c.head), Some(&fx.objects));
     for name in &c.refs {
@@ -94,6 +101,8 @@ fn build_server(fx: &Fixture, c: &Case, dir: &Path) {
         util::write(&dir.join(name), fx.value(v).as_bytes());
     }
 }
+
+static GIT_CALLS: AtomicU64 = AtomicU64::new(0);
 
 /// What the server has, according to git.
 #[derive(Debug, Clone)]
@@ -109,55 +118,62 @@ struct ServerRef {
 
 fn oracle(server: &Path) -> Vec<ServerRef> {
     let mut out = Vec::new();
-    // HEAD
+    // HEAD: follow the symref chain with `git symbolic-ref` to the final target (as the server does)
     let mut name = "HEAD".to_string();
     let mut target = None;
     for _ in 0..5 {
         let o = git::try_git(server, &["symbolic-ref", "-q", &name]);
+        GIT_CALLS.fetch_add(1, Ordering::Relaxed);
         if !o.ok {
             break;
         }
         name = o.text();
         target = Some(name.clone());
     }
-    let o = git::try_git(server, &["rev-parse", "-q", "--verify", "HEAD"]);
-    if o.ok {
-        let oid = o.text();
-        let peeled = git::git_text(server, &["rev-parse", "HEAD^{}"]);
-        out.push(ServerRef { name: "HEAD".into(), peeled: (peeled != oid).then_some(peeled), oid: Some(oid), symref: target });
-    } else if let Some(t) = target {
-        out.push(ServerRef { name: "HEAD".into(), oid: None, peeled: None, symref: Some(t) });
-    }
     // everything else (dangling symrefs are not listed by git)
     let listing = git::git_text(server, &["for-each-ref", "--format=%(refname) %(objectname) %(objecttype) %(symref)"]);
-    let mut tags = Vec::new();
+    let mut refs = Vec::new();
     for l in listing.lines() {
         let f: Vec<&str> = l.split(' ').collect();
         if f.len() < 3 {
             vkit::machinery!("unexpected for-each-ref line {l:?}");
         }
-        if f[2] == "tag" {
-            tags.push(out.len());
-        }
-        out.push(ServerRef {
+        refs.push(ServerRef {
             name: f[0].into(),
             oid: Some(f[1].into()),
             peeled: None,
             symref: f.get(3).filter(|s| !s.is_empty()).map(|s| s.to_string()),
         });
     }
-    if !tags.is_empty() {
-        let mut args = vec!["rev-parse".to_string()];
-        args.extend(tags.iter().map(|&i| format!("{}^{{}}", out[i].name)));
-        let peeled = git::git_text(server, &args);
-        let ids: Vec<&str> = peeled.lines().collect();
-        if ids.len() != tags.len() {
-            vkit::machinery!("rev-parse returned {} ids for {} tags", ids.len(), tags.len());
+    // one batch: HEAD, HEAD^{}, <ref>^{} for every ref
+    let mut input = String::from("HEAD\nHEAD^{}\n");
+    for r in &refs {
+        input.push_str(&format!("{}^{{}}\n", r.name));
+    }
+    let batch = git::git_in(server, &["cat-file", "--batch-check=%(objectname)"], input.as_bytes());
+    GIT_CALLS.fetch_add(2, Ordering::Relaxed);
+    let batch = String::from_utf8_lossy(&batch).to_string();
+    let lines: Vec<&str> = batch.lines().collect();
+    if lines.len() != refs.len() + 2 {
+        vkit::machinery!("cat-file --batch-check returned {} lines for {} queries", lines.len(), refs.len() + 2);
+    }
+    let id = |l: &str| -> Option<String> { (l.len() == 40 && l.bytes().all(|b| b.is_ascii_hexdigit())).then(|| l.to_string()) };
+    match (id(lines[0]), id(lines[1])) {
+        (Some(oid), Some(peeled)) => out.push(ServerRef { name: "HEAD".into(), peeled: (peeled != oid).then_some(peeled), oid: Some(oid), symref: target }),
+        (None, None) if lines[0].ends_with(" missing") => {
+            if let Some(t) = target {
+                out.push(ServerRef { name: "HEAD".into(), oid: None, peeled: None, symref: Some(t) });
+            }
         }
-        for (&i, id) in tags.iter().zip(ids) {
-            out[i].peeled = Some(id.to_string());
+        _ => vkit::machinery!("unexpected cat-file answer for HEAD: {:?}", &lines[..2]),
+    }
+    for (r, l) in refs.iter_mut().zip(&lines[2..]) {
+        let Some(peeled) = id(l) else { vkit::machinery!("cannot peel {}: {l:?}", r.name) };
+        if Some(&peeled) != r.oid.as_ref() {
+            r.peeled = Some(peeled);
         }
     }
+    out.extend(refs);
     out
 }
 
@@ -237,7 +253,8 @@ fn gix_refs(client: &Path, server: &Path, proto: u8, filter: u8) -> Result<(Vec<
 
 pub fn run(run: &'static Run) {
     util::hermetic_env();
-    let nrefs = run.pick(QUICK_REFS, REFS.len());
+    let nrefs = run.pick(QUICK_REFS, MAIN_REFS);
+    let ncombos = run.pick(QUICK_COMBOS, COMBOS.len());
     run.rule(format!(
         "server repositories: every subset of the refs {:?} x HEAD in {:?} (symref to branch / detached at commit / unborn / symref to a symref / symref to an annotated tag / detached at a tag object; \
          keys c1,c2 = commits, tag_ann = annotated tag of c2, tag_nest = tag of a tag of c1, tag_tree = tag of a tree, blob); \
@@ -258,32 +275,23 @@ pub fn run(run: &'static Run) {
     static UNBORN: AtomicU64 = AtomicU64::new(0);
     static SYMTAG: AtomicU64 = AtomicU64::new(0);
     static FILTERED: AtomicU64 = AtomicU64::new(0);
-    static GIT_CALLS: AtomicU64 = AtomicU64::new(0);
-    run.sub_with(
-        "advertisement",
-        vkit::Opts::default().chunk(512).watchdog(20.0),
-        |emit| {
-            // simplest first: by number of refs
-            let names: Vec<&str> = REFS[..nrefs].iter().map(|r| r.0).collect();
-            for k in 0..=names.len() {
-                vkit::enumerate::subsets(&names, k, k, |s| {
-                    for head in HEADS {
-                        for proto in [0u8, 1, 2] {
-                            for filter in 0..=(if proto == 2 { 2u8 } else { 1 }) {
-                                emit(Case { refs: s.iter().map(|x| x.to_string()).collect(), head: head.to_string(), proto, filter });
-                            }
-                        }
-                    }
-                });
-            }
-        },
-        |c: &Case| -> Verdict {
-            let dir = scratch::Dir::new("c30s");
-            build_server(fx, c, dir.path());
-            let server = oracle(dir.path());
-            GIT_CALLS.fetch_add(4, Ordering::Relaxed);
+    type Slot = std::sync::Arc<std::sync::OnceLock<(PathBuf, Vec<ServerRef>)>>;
+    let servers: std::sync::Mutex<std::collections::HashMap<String, Slot>> = Default::default();
+    let servers = &servers;
+    let eval = |c: &Case| -> Verdict {
+            // the server repository and git's description of it depend on (refs, HEAD) only: build once, share read-only
+            let key = format!("{:?} {}", c.refs, c.head);
+            let slot = servers.lock().unwrap().entry(key).or_default().clone();
+            let (dir, server) = slot.get_or_init(|| {
+                let dir = scratch::Dir::new("c30s").keep();
+                build_server(fx, c, &dir);
+                let server = oracle(&dir);
+                (dir, server)
+            });
+            let server = server.clone();
+            let dir = ServerDir(dir.clone());
             let want = expected(&server, c.proto, c.filter);
-            let (got, version) = match vkit::catch(|| gix_refs(&fx.client, dir.path(), c.proto, c.filter)) {
+            let (got, version) = match vkit::catch(|| gix_refs(&fx.client, &dir.0, c.proto, c.filter)) {
                 Err(p) => return bad("panic", p),
                 Ok(Err(m)) if m.starts_with("machinery:") => vkit::machinery!("{m}"),
                 Ok(Err(m)) => return bad("error", format!("{m}; server advertises {want:?}")),
@@ -335,8 +343,47 @@ pub fn run(run: &'static Run) {
                 FILTERED.fetch_add(1, Ordering::Relaxed);
             }
             ok(format!("v{}/f{}/{kinds}", c.proto, c.filter))
+        };
+    run.sub_with(
+        "advertisement",
+        vkit::Opts::default().chunk(128).watchdog(120.0),
+        |emit| {
+            // simplest first: by number of refs
+            let names: Vec<&str> = REFS[..nrefs].iter().map(|r| r.0).collect();
+            for k in 0..=names.len() {
+                vkit::enumerate::subsets(&names, k, k, |s| {
+                    for head in HEADS {
+                        for &(proto, filter) in &COMBOS[..ncombos] {
+                            emit(Case { refs: s.iter().map(|x| x.to_string()).collect(), head: head.to_string(), proto, filter });
+                        }
+                    }
+                });
+            }
         },
+        &eval,
     );
+    if !run.quick() {
+        // rarer shapes on top of a fixed base: symref to a tag, symref chain, tag of a tree, lightweight tag on a blob
+        run.sub_with(
+            "exotic",
+            vkit::Opts::default().chunk(128).watchdog(120.0),
+            |emit| {
+                let names: Vec<&str> = REFS[MAIN_REFS..].iter().map(|r| r.0).collect();
+                for k in 1..=names.len() {
+                    vkit::enumerate::subsets(&names, k, k, |s| {
+                        for head in HEADS {
+                            for &(proto, filter) in &COMBOS[..QUICK_COMBOS] {
+                                let mut refs: Vec<String> = ["refs/heads/a", "refs/tags/ann", "refs/heads/sym"].iter().map(|x| x.to_string()).collect();
+                                refs.extend(s.iter().map(|x| x.to_string()));
+                                emit(Case { refs, head: head.to_string(), proto, filter });
+                            }
+                        }
+                    });
+                }
+            },
+            &eval,
+        );
+    }
     run.cov_add("oracle_calls_git", GIT_CALLS.load(Ordering::Relaxed));
     run.require("some case had to report a symbolic ref", SYMBOLIC.load(Ordering::Relaxed) > 0);
     run.require("some case had to report a peeled tag", PEELED.load(Ordering::Relaxed) > 0);
